@@ -99,7 +99,7 @@ REVERT_PROPS = {
     'Dask scatter emits elements in arrival order': ['C20'],
     'a node joining a bound pipeline binds': ['C19', 'C03'],
     'a node joining an asynchronous pipeline passes the mode': ['C19', 'C03'],
-    'concurrent blocking emits do not trip': ['C16', 'C03'],
+    'concurrent blocking emits do not trip': ['C03', 'C16'],
     'rate_limit keeps arrival order and spacing': ['C13', 'C02'],
     'slice stays within its end': ['C01'],
     "collect.flush hands its consumers' awaitables": ['C02'],
